@@ -43,13 +43,13 @@ variable [DecidableEq α]
     "heading to Y" (0 = due North = +Y, counter-clockwise positive) -/
 theorem angle_spec (a b : Vec3 α) (h : α) (hh : h ≠ 0) :
     ((rotZ (azimuthTo a b h)).mulVec Vec3.ey).smul h = ⟨b.x - a.x, b.y - a.y, 0⟩ := by
-  simp only [azimuthTo, azimuthOf, if_neg hh]
+  simp only [azimuthTo_eq, azimuthOf_eq, if_neg hh]
   ext <;> unfold_frames <;> field_simp <;> ring
 
 /-- `angle from X to Y` is zero exactly when `Y` is due North of `X` (doc example) -/
 theorem angle_zero_iff_north (a b : Vec3 α) (h : α) (hh : h ≠ 0) :
     azimuthTo a b h = Ang.zero ↔ (b.x = a.x ∧ b.y - a.y = h) := by
-  simp only [azimuthTo, azimuthOf, if_neg hh, Ang.zero]
+  simp only [azimuthTo_eq, azimuthOf_eq, if_neg hh, Ang.zero]
   constructor
   · intro e
     have h1 := congrArg Ang.c e
@@ -69,14 +69,14 @@ theorem angle_zero_iff_north (a b : Vec3 α) (h : α) (hh : h ≠ 0) :
     horizontal plane -/
 theorem altitude_spec (a b : Vec3 α) (h rho : α) (hr : rho ≠ 0) :
     (altitudeTo a b h rho).c * rho = h ∧ (altitudeTo a b h rho).s * rho = b.z - a.z := by
-  simp only [altitudeTo, altitudeOf, if_neg hr, Vec3.sub]
+  simp only [altitudeTo_eq, altitudeOf_eq, if_neg hr, Vec3.sub]
   constructor <;> field_simp
 
 /-- a point directly above has altitude `+90°` (`(cos, sin) = (0, 1)`): NB the reference manual says
     "π" in its example; the code (and geometry) give `π/2` -/
 theorem altitude_directly_above (a b : Vec3 α) (rho : α) (hr : rho ≠ 0) (hz : b.z - a.z = rho) :
     altitudeTo a b 0 rho = ⟨0, 1⟩ := by
-  simp only [altitudeTo, altitudeOf, if_neg hr, Vec3.sub, hz, zero_div, div_self hr]
+  simp only [altitudeTo_eq, altitudeOf_eq, if_neg hr, Vec3.sub, hz, zero_div, div_self hr]
 
 /-! ## `relative heading of X from Y`, `apparent heading of P from Q`, `distance past` -/
 
@@ -93,7 +93,7 @@ theorem relative_heading_spec (x y : Ang α) (hy : y.Unit) :
     relative to the line of sight from `Q` -/
 theorem apparent_heading_spec (point : Vec3 α) (heading : Ang α) (base : Vec3 α) (h : α) (hh : h ≠ 0) :
     apparentHeading point heading base h = heading.sub (azimuthTo base point h) := by
-  simp only [apparentHeading, azimuthTo, azimuthOf, if_neg hh, Vec3.sub]
+  simp only [apparentHeading_eq, azimuthTo_eq, azimuthOf_eq, if_neg hh, Vec3.sub]
   ext <;> unfold_frames <;> ring
 
 omit [DecidableEq α] in
@@ -107,67 +107,72 @@ omit [DecidableEq α] in
 theorem yaw_of_heading (a : Ang α) : yawOf (rotZ a) 1 = a := by
   ext <;> simp only [yawOf, rotZ] <;> ring
 
-/-! ## `apparently facing H [from P]` (`veneer.py:2140-2161`) -/
+/-! ## `apparently facing H [from P]` (`veneer.py ApparentlyFacing`) -/
 
 /-- With a **global parent orientation** the specifier does what the reference says: the new object's
     heading relative to the line of sight from `P` is `H`
-    (`apparent heading of <new object> from P = H`). Holds for either shape of the helper. -/
-theorem apparently_facing_global_parent (usesParent : Bool) (position fromPt : Vec3 α) (hd : Ang α)
+    (`apparent heading of <new object> from P = H`). -/
+theorem apparently_facing_global_parent (position fromPt : Vec3 α) (hd : Ang α)
     (h : α) (hh : h ≠ 0)
     (hw : h * h = (position.sub fromPt).x * (position.sub fromPt).x + (position.sub fromPt).y * (position.sub fromPt).y) :
-    let yaw := apparentlyFacingYaw usesParent Mat3.one position fromPt hd h
+    let yaw := apparentlyFacingYaw Mat3.one position fromPt hd h
     -- parent = identity and pitch = roll = 0: the global heading is the yaw
     apparentHeading position yaw fromPt h = hd := by
   intro yaw
   have hy : yaw = (azimuthTo fromPt position h).add hd := by
-    cases usesParent
-    · rfl
-    · simp only [yaw, apparentlyFacingYaw, if_true, azimuthTo, Mat3.transpose_one, Mat3.one_mulVec]
+    simp only [yaw, apparentlyFacingYaw, azimuthTo_eq, Mat3.transpose_one, Mat3.one_mulVec]
   have hunit : (azimuthTo fromPt position h).Unit := by
-    simp only [azimuthTo, azimuthOf, if_neg hh, Ang.Unit]
+    simp only [azimuthTo_eq, azimuthOf_eq, if_neg hh, Ang.Unit]
     field_simp; linear_combination -hw
   rw [apparent_heading_spec _ _ _ _ hh, hy, Ang.add_comm', Ang.sub, Ang.add_assoc', Ang.add_neg_cancel hunit,
     Ang.add_zero']
 
-/-- With a **yaw-only parent orientation** `rotZ a` and the helper working in the parent frame
-    (`usesParent = true`, the repaired code) the same holds: the global heading `a + yaw` has apparent
-    heading `H`. -/
+/-- With a **yaw-only parent orientation** `rotZ a` the same holds: the yaw is relative to the parent, the
+    global heading is `a + yaw`, and it has apparent heading `H` from `P` — whatever `a`. -/
 theorem apparently_facing_parent_frame (a : Ang α) (ha : a.Unit) (position fromPt : Vec3 α) (hd : Ang α)
     (h : α) (hh : h ≠ 0)
     (hw : h * h = (position.sub fromPt).x * (position.sub fromPt).x + (position.sub fromPt).y * (position.sub fromPt).y) :
-    let yaw := apparentlyFacingYaw true (rotZ a) position fromPt hd h
+    let yaw := apparentlyFacingYaw (rotZ a) position fromPt hd h
     apparentHeading position (a.add yaw) fromPt h = hd := by
   intro yaw
   unfold Ang.Unit at ha
   have hw' : (position.x - fromPt.x) * (position.x - fromPt.x) + (position.y - fromPt.y) * (position.y - fromPt.y)
       = h * h := by rw [hw]; simp only [Vec3.sub]
-  simp only [yaw, apparentlyFacingYaw, if_true, apparentHeading, azimuthOf, if_neg hh]
+  simp only [yaw, apparentlyFacingYaw, apparentHeading_eq, azimuthOf_eq, if_neg hh]
   ext <;> unfold_frames <;> field_simp
   · linear_combination (hd.c * h * h) * ha + (hd.c * (a.c * a.c + a.s * a.s)) * hw'
   · linear_combination (hd.s * h * h) * ha + (hd.s * (a.c * a.c + a.s * a.s)) * hw'
+example : (⟨3/5, 4/5⟩ : Ang Rat).Unit ∧ (5 : Rat) * 5 = 3 * 3 + 4 * 4 := by unfold Ang.Unit; norm_num
 
 /-- the property "the object ends up with apparent heading `H` whatever the (yaw-only) parent
-    orientation", as a predicate on the helper's shape -/
-def ApparentlyFacingRespectsParent (α : Type) [Field α] [DecidableEq α] (usesParent : Bool) : Prop :=
+    orientation" -/
+def ApparentlyFacingRespectsParent (α : Type) [Field α] [DecidableEq α] : Prop :=
   ∀ (a : Ang α), a.Unit → ∀ (position fromPt : Vec3 α) (hd : Ang α) (h : α), h ≠ 0 →
     h * h = (position.sub fromPt).x * (position.sub fromPt).x + (position.sub fromPt).y * (position.sub fromPt).y →
-    apparentHeading position (a.add (apparentlyFacingYaw usesParent (rotZ a) position fromPt hd h)) fromPt h = hd
+    apparentHeading position (a.add (apparentlyFacingYaw (rotZ a) position fromPt hd h)) fromPt h = hd
 
-/-- the repaired helper satisfies it (for every field) -/
-theorem apparently_facing_respects_parent : ApparentlyFacingRespectsParent α true :=
+/-- **`apparently facing` takes the parent orientation into account** (for every field): full statement,
+    no exception (the code at the earlier pinned commit ignored `parentOrientation` and violated it) -/
+theorem apparently_facing_respects_parent : ApparentlyFacingRespectsParent α :=
   fun a ha position fromPt hd h hh hw => apparently_facing_parent_frame a ha position fromPt hd h hh hw
 
-end
+/-- **arbitrary parent orientation** `P` (any rotation, also pitched / rolled): with the specified yaw
+    (pitch = roll = 0 in the parent frame) the object's forward axis, *expressed in the parent frame*, is the
+    horizontal line of sight from `P` to the object turned by `H` about the parent's up axis —
+    `h · (Pᵀ · forward) = rotZ(H) · (dir.x, dir.y, 0)` with `dir = Pᵀ (position − from)`. For `H = 0` this
+    is `facing away from P`. -/
+theorem apparently_facing_general (p : Mat3 α) (hp : p.IsRot) (position fromPt : Vec3 α) (hd : Ang α) (h : α) (hh : h ≠ 0) :
+    let dir := p.transpose.mulVec (position.sub fromPt)
+    let o := p.mul (euler (apparentlyFacingYaw p position fromPt hd h) Ang.zero Ang.zero)
+    (p.transpose.mulVec (o.mulVec Vec3.ey)).smul h = (rotZ hd).mulVec ⟨dir.x, dir.y, 0⟩ := by
+  intro dir o
+  have h1 : p.transpose.mulVec (o.mulVec Vec3.ey) =
+      (euler (apparentlyFacingYaw p position fromPt hd h) Ang.zero Ang.zero).mulVec Vec3.ey := by
+    simp only [o, Mat3.mulVec_mul]; exact hp.transpose_mulVec_mulVec _
+  rw [h1]
+  simp only [dir, apparentlyFacingYaw, azimuthOf_eq, if_neg hh]
+  ext <;> unfold_frames <;> field_simp <;> ring
 
-/-- **negation witness** (`§2.3`): a helper that ignores `parentOrientation` (the code at the pinned
-    commit) violates the statement: parent yaw 90°, object due North of the viewpoint, `H = 0`
-    gives apparent heading 90°, not 0. -/
-theorem apparently_facing_ignoring_parent_witness : ¬ ApparentlyFacingRespectsParent Rat false := by
-  intro hall
-  have := hall ⟨0, 1⟩ (by unfold Ang.Unit; norm_num) ⟨0, 1, 0⟩ ⟨0, 0, 0⟩ Ang.zero 1 (by norm_num)
-    (by simp only [Vec3.sub]; norm_num)
-  have hc := congrArg Ang.c this
-  simp only [apparentlyFacingYaw, apparentHeading, azimuthTo, azimuthOf, Vec3.sub, Ang.add, Ang.zero] at hc
-  norm_num at hc
+end
 
 end Scenic.C07
